@@ -873,6 +873,51 @@ class Taint:
                                 return True
         return False
 
+    def captured_len_guarded(self, cb, op):
+        """cb is a closure and op holds the length of a slice it captured (by copy or by shared reference): a comparison of that very length
+        dominates the creation of the closure in the enclosing function and sends one outcome away from it
+        (`assert!(!key.is_empty() && key.len() <= 256); (0..256).fold(0, |j, i| .. key[i % key.len()] ..)`)"""
+        if cb.get("kind") != "Closure":
+            return False
+        key = self.expr_key(cb, op)
+        if not (isinstance(key, tuple) and len(key) == 2 and key[0] == "len" and key[1][0] == "p"):
+            return False
+        pl = json.loads(key[1][1])
+        if not (len(pl) >= 3 and pl[0] == 1 and pl[1][0] == "deref" and pl[2][0] == "field" and all(e[0] == "deref" for e in pl[3:])):
+            return False
+        k = pl[2][1]
+        parent = self.f.bodies.get(cb.get("parent") or cb.get("owner_fn") or "")
+        if parent is None:
+            return False
+
+        def strip(pl2):
+            pl2 = list(pl2)
+            while len(pl2) > 1 and pl2[-1][0] == "deref":
+                pl2.pop()
+            return pl2
+        sites = [(i, st) for i, j, st in F.stmts(parent) if st[0] == "assign" and st[2][0] == "aggregate" and st[2][1].get("k") == "closure" and st[2][1].get("closure") == cb["id"]]
+        if not sites:
+            return False
+        for i, st in sites:
+            if k >= len(st[2][2]) or st[2][2][k][0] not in ("copy", "move"):
+                return False
+            base = strip(self.canon_place(parent, list(st[2][2][k][1]) + [["deref"]]))
+            if len(base) != 1:
+                return False
+            ty = parent["locals"][base[0]]["s"]
+            if not ty.startswith("&") or ty.startswith("&mut") or len(self.defs(parent).get(base[0], [])) > (0 if 1 <= base[0] <= parent["argc"] else 1):
+                return False        # only a shared reference that is never re-assigned: its referent's length cannot change
+            ok = False
+            for bi, t in F.calls(parent):
+                if last_seg(F.callee_name(t)) == "len" and t.get("dest") and len(t["dest"]) == 1 and t["args"] and t["args"][0][0] in ("copy", "move"):
+                    ak = self.expr_key(parent, t["args"][0])
+                    if ak[0] == "p" and strip(json.loads(ak[1])) == base and self.guarded_exact(parent, i, ["copy", [t["dest"][0]]]):
+                        ok = True
+                        break
+            if not ok:
+                return False
+        return True
+
     def _ret_guarded(self, cb):
         """every value the function hands back in Ok(..) / Some(..) (or directly) was compared, as that very expression, before the return:
         `if w0 + w1 + w2 == 0 { bail } Ok(w0 + w1 + w2)`"""
